@@ -210,6 +210,20 @@ pub fn get_parameter(scopes: &[Scope]) -> Result<(usize, usize), Error> {
     Ok((ty, param.index))
 }
 
+/// The declared (un-narrowed) parameter type of the enclosing function.
+pub fn get_declared_function_parameter(scopes: &[Scope]) -> Result<usize, Error> {
+    for scope in scopes.iter().rev() {
+        if scope.kind == ScopeKind::Function
+            && let Some(param) = &scope.parameter
+        {
+            return Ok(param.ty);
+        }
+    }
+    Err(Error::InternalError {
+        message: "No function parameter available (^ used outside function)".to_string(),
+    })
+}
+
 /// Get the function parameter (for $ operator).
 ///
 /// Walks up scopes to find the nearest Function scope's parameter.
